@@ -81,3 +81,17 @@ Theorem C11_static_never_added : forall gens l lt,
     (lt = "static"%string \/ lt = "_"%string) -> In lt (lt_names (add_missing_lts gens (declarable_lts l))) -> In lt (lt_names gens).
 Proof. exact static_never_added. Qed.
 Print Assumptions C11_static_never_added.
+
+(* the added lifetime is fresh - declared once - exactly when no lifetime already on the impl is itself called 'o2o; the unchanged
+   code does not avoid the clash (finding F-11g, witness `struct S<'o2o>`) *)
+From O2o.Lemmas Require Import O2oFresh.
+
+Theorem C11_o2o_fresh_iff : forall gens bound,
+    NoDup (lt_names (push_param gens (o2o_param bound))) <-> NoDup (lt_names gens) /\ ~ In "o2o"%string (lt_names gens).
+Proof. exact o2o_fresh_iff. Qed.
+Print Assumptions C11_o2o_fresh_iff.
+
+Theorem C11_o2o_fresh_refuted :
+  exists gens bound, NoDup (lt_names gens) /\ ~ NoDup (lt_names (push_param gens (o2o_param bound))).
+Proof. exact o2o_not_fresh_refuted. Qed.
+Print Assumptions C11_o2o_fresh_refuted.
